@@ -307,12 +307,17 @@ def run_config(pid, cfg, tier, seed, extra=None):
     if os.path.exists(part):
         os.remove(part)
     cmd = [exe, pid, "--tier", tier, "--seed", str(seed), "--config", cfg, "--out", part]
+    ksigs = [k["signature"] for k in known_findings() if k.get("property") == pid and k.get("status") == "known"]
+    if ksigs:
+        cmd += ["--known", ",".join(ksigs)]
     env = dict(ENV)
     if CONFIGS[cfg].get("miri"):
         cmd = ["cargo", "+nightly", "miri", "run", "-q", "-p", "coapmc", "--offline", "--target-dir", "target-miri" + MUT]
         if REPO_OVERRIDE:
             cmd += ["--config", f'paths=["{REPO_OVERRIDE}"]']
         cmd += ["--", pid, "--tier", tier, "--seed", str(seed), "--config", cfg, "--out", part, "--threads", "1"]
+        if ksigs:
+            cmd += ["--known", ",".join(ksigs)]
         env["MIRIFLAGS"] = "-Zmiri-disable-isolation -Zmiri-ignore-leaks"
     if extra:
         cmd += extra
